@@ -14,7 +14,10 @@
 (*    rejected when truncated/corrupt; never partial data presented as the  *)
 (*    image.                                                                *)
 (* M: the two nested loops with input chunks of InBuf units and an output   *)
-(*    buffer of OutBuf units, stopping at the first END (as coded).         *)
+(*    buffer of OutBuf units; the input buffer is refilled only when it is   *)
+(*    empty; at the END of a member the loop goes on with the next member    *)
+(*    when more data follows (inflateReset), otherwise it is done            *)
+(*    (repaired: it used to stop at the first END).                          *)
 (***************************************************************************)
 EXTENDS Naturals, Sequences, FiniteSets, TLC, Json
 CONSTANTS MaxMembers, MaxCin, Ratios, InBuf, OutBuf
@@ -35,8 +38,9 @@ Intact == cut = TotalIn(members) /\ bad = 0
 
 \* outer loop: fread up to InBuf units
 Read == /\ st = "run" /\ phase = "read"
-        /\ LET got == IF cut - fpos < InBuf THEN cut - fpos ELSE InBuf IN
-           /\ availIn' = got /\ gotLast' = got /\ fpos' = fpos + got
+        /\ IF availIn > 0 THEN UNCHANGED <<availIn, gotLast, fpos>>                     \* unconsumed input left: no fread
+           ELSE LET got == IF cut - fpos < InBuf THEN cut - fpos ELSE InBuf IN
+                /\ availIn' = got /\ gotLast' = got /\ fpos' = fpos + got
         /\ phase' = "inflate"
         /\ UNCHANGED <<members, cut, bad, member, mpos, pendingOut, produced, zerr, st>>
 \* the abstract zlib: one inflate() call with OutBuf units of room.  z = [ain, mpos, pend, out, consumed, err]
@@ -58,20 +62,30 @@ Inflate ==
                   ELSE IF z.mpos = members[member].cin /\ z.pend = 0 THEN "END"
                   ELSE IF z.consumed = 0 /\ z.out = 0 THEN "BUF_ERROR"
                   ELSE "OK"
-       IN /\ availIn' = z.ain /\ mpos' = z.mpos /\ pendingOut' = z.pend /\ produced' = produced + z.out /\ zerr' = res
-          /\ IF res = "END" THEN st' = "done" /\ phase' = phase                          \* while (zerr != Z_STREAM_END): leaves both loops
+           more == z.ain > 0 \/ fpos < cut                                               \* another byte follows (in the buffer or the file)
+       IN /\ availIn' = z.ain /\ pendingOut' = z.pend /\ produced' = produced + z.out /\ zerr' = res
+          /\ mpos' = IF res = "END" /\ more /\ member < Len(members) THEN 0 ELSE z.mpos
+          /\ member' = IF res = "END" /\ more /\ member < Len(members) THEN member + 1 ELSE member
+          /\ IF res = "END" THEN (IF more /\ member < Len(members) THEN st' = st /\ phase' = "read"   \* inflateReset; next member
+                                  ELSE st' = "done" /\ phase' = phase)
              ELSE IF res = "BUF_ERROR" /\ gotLast > 0 THEN st' = st /\ phase' = "read"    \* "want more input data": break
              ELSE IF res \in {"BUF_ERROR", "DATA_ERROR"} THEN st' = "error" /\ phase' = phase   \* check_zlib_error_code throws
              ELSE IF z.out = OutBuf THEN st' = st /\ phase' = "inflate"                   \* do ... while (avail_out == 0)
              ELSE st' = st /\ phase' = "read"
-    /\ UNCHANGED <<members, cut, bad, fpos, member, gotLast>>
+    /\ UNCHANGED <<members, cut, bad, fpos, gotLast>>
 Next == Read \/ Inflate
 Spec == Init /\ [][Next]_vars
 FairSpec == Spec /\ WF_vars(Next)
 
 \* R
-RAccepts == st = "done" => (Intact /\ produced = TotalOut(members))
-RRejectsDamaged == (st \in {"done", "error"} /\ ~Intact) => st = "error"
+\* A file cut exactly at the end of a member is a complete gzip file of fewer members (nothing in it says more was meant to
+\* follow); any other truncation, and a corrupted unit among those present, must be rejected.
+Prefix(k) == SubSeq(members, 1, k)
+WholeMembers == {k \in 1..Len(members) : TotalIn(Prefix(k)) = cut}
+Sound == WholeMembers # {} /\ (bad = 0 \/ bad > cut)
+RAccepts == st = "done" => (Sound /\ \E k \in WholeMembers : produced = TotalOut(Prefix(k)))
+RRejectsDamaged == (st \in {"done", "error"} /\ ~Sound) => st = "error"
+RAcceptsSound == (st \in {"done", "error"} /\ Sound) => st = "done"
 \* restricted to the first member (what the loop as coded can see)
 FirstDamaged == cut < members[1].cin \/ (bad # 0 /\ bad <= members[1].cin)
 RRejectsDamagedFirst == (st \in {"done", "error"}) => (st = "error" <=> FirstDamaged)
@@ -88,5 +102,5 @@ MReadLen(size, pos, len) == IF pos >= size THEN 0 ELSE IF size - pos < len THEN 
 MBlockReadable(size, lba) == MReadLen(size, lba * BlockUnits, BlockUnits) = BlockUnits
 RBlockReadable(size, lba) == (lba + 1) * BlockUnits <= size
 RReadBack == st = "done" => \A lba \in 0..(produced \div BlockUnits + 1) :
-                 MBlockReadable(produced, lba) = RBlockReadable(members[1].cin * members[1].ratio, lba)
+                 \A k \in WholeMembers : MBlockReadable(produced, lba) = RBlockReadable(TotalOut(Prefix(k)), lba)
 =============================================================================
